@@ -30,8 +30,8 @@ TRUSTED = ["Coq 8.16.1 kernel + vm_compute, PrimFloat = IEEE binary64",
            "rational mean at 1e-12 relative), np.random.choice / np.random.dirichlet draws, pandas GroupBy.sample row labels "
            "(legality checked by cover_oracle_ok and replayed independently with RandomState)",
            "harness/c20.py, harness/coqgen.py (literal printer)",
-           "realised class frequencies of the resampling injectors: chi-square test only (thorough tier), not a theorem"]
-RULE = ("for each injector: random small data sets (0..5 rows quick / 0..7 thorough, 1..4 columns, labels from a 2-4 value "
+           "realised class frequencies of the resampling injector: chi-square goodness of fit at 1e-6 on 3000-row windows (statistical, not a theorem)"]
+RULE = ("for each injector: random small data sets (0..6 rows quick / 0..8 thorough, 1..4 columns, labels from a 2-4 value "
         "alphabet, feature cells incl. ties, -0.0, NaN, inf) x EVERY window 0<=from<=to<=n x every column choice / class pair "
         "drawn from present, absent and equal classes x layouts {C, Fortran, strided view, reversed view, DataFrame} "
         "(+ int64 arrays for the structural injectors); a few windows reaching past the data for the slice-based injectors. "
@@ -131,6 +131,8 @@ def call(case, obj, inj=None):
 
 
 def run_impl(case):
+    if case["inj"] == "freq":
+        return run_freq(case)
     case = dict(case, args=dict(case["args"]))
     a = case["args"]
     k = case["inj"]
@@ -143,13 +145,14 @@ def run_impl(case):
     before = snapshot(obj, base)
     obs = {"oracle": {}}
     np.random.seed(case["seed"])
+    inj = INJ[k]()
     try:
-        inj, out = call(case, obj)
+        _, out = call(case, obj, inj)
         obs.update(describe(out))
         obs["aliases_input"] = bool(np.shares_memory(out.to_numpy() if isinstance(out, pd.DataFrame) else out, base.to_numpy() if isinstance(base, pd.DataFrame) else base))
         obs["raised"] = None
     except Exception as e:
-        inj, out = None, None
+        out = None
         obs["raised"] = f"{type(e).__name__}: {str(e)[:700]}"
         obs.update({"type": None, "shape": None, "columns": None, "dtypes": [], "rows": None})
     obs["input_unchanged"] = snapshot(obj, base) == before
@@ -160,16 +163,16 @@ def run_impl(case):
     n = len(case["rows"])
     steps = case["to"] - case["from"]
     # ---- replay of the random / library parts -------------------------------------------------
-    if k == "shift" and inj is not None:
+    if k == "shift" and out is not None:
         orc["mean"] = float(inj._section_mean)
     if k == "brownian":
         np.random.seed(a["rs"])
         orc["signs"] = [int(np.random.choice([1, -1])) for _ in range(max(0, steps - 1))]
     if k == "prob":
-        p = [float(v) for v in getattr(inj, "_p_distribution", [])] if inj is not None else None
+        p = [float(v) for v in inj._p_distribution] if hasattr(inj, "_p_distribution") else None
         orc["p"] = p
         orc["positions"] = []
-        if p:
+        if p and out is not None:
             np.random.seed(case["seed"])
             orc["positions"] = [int(v) for v in np.random.choice(len(p), steps, True, p)]
     if k == "dirichlet":
@@ -178,7 +181,7 @@ def run_impl(case):
         d = np.random.dirichlet(vals)
         st = np.random.get_state()
         orc["dir"] = [float(v) for v in d]
-        if inj is not None and [float(v) for v in inj._dirichlet_distribution] != orc["dir"]:
+        if hasattr(inj, "_dirichlet_distribution") and [float(v) for v in inj._dirichlet_distribution] != orc["dir"]:
             orc["dir_replay_mismatch"] = True
         orc["p"], orc["positions"] = None, []
         if out is not None:
@@ -278,6 +281,8 @@ def reason_of(case, obs):
 def direct_check(case, obs):
     if "__exception__" in obs:
         return [f"harness could not run the case: {obs['__exception__']}: {obs.get('__message__')}"]
+    if case["inj"] == "freq":
+        return check_freq(case, obs)
     msgs = []
     a, k = case["args"], case["inj"]
     rows, w = case["rows"], case["w"]
@@ -515,6 +520,8 @@ def exp_term(case, obs, rows=None):
 
 
 def coq_term(case, obs):
+    if case["inj"] == "freq":
+        return None
     if "__exception__" in obs:
         return "false"
     a, k = case["args"], case["inj"]
@@ -588,6 +595,8 @@ def show_term(case, obs):
 def nontrivial(case, obs):
     if "__exception__" in obs or obs.get("raised"):
         return False
+    if case["inj"] == "freq":
+        return True
     rows, out = case["rows"], obs["rows"]
     k = case["inj"]
     if k == "cover":
@@ -606,6 +615,8 @@ def signature(case, obs, msgs):
 
 
 def shrink_candidates(case):
+    if case["inj"] == "freq":
+        return
     rows = case["rows"]
     n = len(rows)
     if case["layout"] != "C":
@@ -697,8 +708,8 @@ def gen_cases(ctx):
         ctx.stats["window_" + ("empty" if f >= t else "full" if (f == 0 and t >= len(rows)) else "inner")] = \
             ctx.stats.get("window_" + ("empty" if f >= t else "full" if (f == 0 and t >= len(rows)) else "inner"), 0) + 1
 
-    nmax = ctx.scale(5, 7)
-    reps = ctx.scale(1, 3)
+    nmax = ctx.scale(6, 8)
+    reps = ctx.scale(2, 4)
     # every layout sees every window: the layout index advances with every case and the number of cases per
     # data set is not a multiple of 5 in general; in addition one data set per injector runs the full cross product
     for n in range(0, nmax + 1):
@@ -802,6 +813,21 @@ def gen_cases(ctx):
         add("prob", rows, w, f, t, {"col": lc, "cp": rng.choice(prob_dicts(rng, present))})
         add("dirichlet", rows, w, f, t, {"col": lc, "alpha": [[x, float(rng.choice([1, 2, 5]))] for x in present]})
         add("cover", rows, w, 0, n, {"col": lc, "size": rng.randint(0, n), "rs": rng.choice([None, rng.randint(0, 99)])})
+    # ---- realised class frequencies over a long window (chi-square at 1e-6; statistical, not a theorem)
+    for _ in range(ctx.scale(3, 12)):
+        cases.append(freq_case(rng, nseed()))
+        ctx.stats["cases_freq"] = ctx.stats.get("cases_freq", 0) + 1
+    # ---- the minimal witnesses of the open findings (only when they are enabled)
+    if allow("dirichlet-sum-exceeds-1"):
+        cases.append({"inj": "dirichlet", "layout": "C", "dtype": "float", "rows": [[0.0], [1.0]], "w": 1, "names": ["a"],
+                      "from": 0, "to": 2, "args": {"col": 0, "alpha": [[0.0, 1.0], [1.0, 1.0]]}, "seed": 12})
+    if allow("choice-negative-probability"):
+        cases.append({"inj": "prob", "layout": "C", "dtype": "float", "rows": [[0.0], [1.0], [2.0], [2.0], [2.0], [2.0]],
+                      "w": 1, "names": ["a"], "from": 0, "to": 6,
+                      "args": {"col": 0, "cp": [[0.0, 0.0], [1.0, 1.0 / 3.0]]}, "seed": 0})
+    if allow("cover-empty-data"):
+        cases.append({"inj": "cover", "layout": "C", "dtype": "float", "rows": [], "w": 2, "names": ["a", "b"],
+                      "from": 0, "to": 0, "args": {"col": 0, "size": 4, "rs": None}, "seed": 1})
     for r, c in skipped.items():
         ctx.stats["skipped_open_finding_" + r] = c
     ctx.stats["open_findings_included"] = sorted(x for x in ("dirichlet-sum-exceeds-1", "choice-negative-probability",
@@ -824,27 +850,41 @@ def prob_dicts(rng, present):
 
 
 # ------------------------------------------------------------------------------- statistical part
-def extra(ctx):
-    """realised class frequencies of LabelProbabilityInjector follow the requested probabilities
-    (chi-square goodness of fit at 1e-6 over many windows); thorough tier only — never a theorem."""
-    if not ctx.thorough:
-        return {"frequency_test": "thorough tier only"}
+def freq_case(rng, seed):
+    k = rng.randint(2, 4)
+    probs = [rng.random() + 0.05 for _ in range(k)]
+    tot = sum(probs)
+    probs = [p / tot for p in probs]
+    return {"inj": "freq", "layout": "C", "k": k, "n": 4000, "from": 500, "to": 3500,
+            "specified": [[float(i), probs[i]] for i in range(k - 1)], "labels_seed": rng.randint(0, 10**6), "seed": seed}
+
+
+def run_freq(case):
+    """realised class frequencies of LabelProbabilityInjector over a long window (never a theorem)"""
+    r = np.random.RandomState(case["labels_seed"])
+    n, k = case["n"], case["k"]
+    data = np.column_stack([r.randint(0, k, size=n).astype(float), np.arange(n, dtype=float)])
+    before = data.copy()
+    np.random.seed(case["seed"])
+    out = LabelProbabilityInjector()(data, case["from"], case["to"], 0, {kv[0]: kv[1] for kv in case["specified"]})
+    f, t = case["from"], case["to"]
+    return {"raised": None, "counts": [int(np.sum(out[f:t, 0] == float(i))) for i in range(k)],
+            "outside_unchanged": bool(np.array_equal(out[:f], before[:f]) and np.array_equal(out[t:], before[t:])),
+            "input_unchanged": bool(np.array_equal(data, before)),
+            "rows_from_window": bool(set(out[f:t, 1].tolist()) <= set(before[f:t, 1].tolist()))}
+
+
+def check_freq(case, obs):
     from scipy import stats
-    rng = ctx.rng
-    res = []
-    for trial in range(6):
-        k = rng.randint(2, 4)
-        n = 4000
-        labels = [float(rng.randrange(k)) for _ in range(n)]
-        data = np.column_stack([np.array(labels), np.arange(n, dtype=float)])
-        probs = [rng.random() for _ in range(k)]
-        s = sum(probs); probs = [p / s * 0.999 for p in probs]
-        cp = {float(i): probs[i] for i in range(k - 1)}
-        np.random.seed(ctx.seed % 10**6 + trial)
-        out = LabelProbabilityInjector()(data, 0, n, 0, cp)
-        want = probs[:k - 1] + [1 - sum(probs[:k - 1])]
-        got = [int(np.sum(out[:, 0] == float(i))) for i in range(k)]
-        chi = stats.chisquare(got, [p * n for p in want])
-        res.append({"classes": k, "requested": want, "observed": got, "p_value": float(chi.pvalue)})
-    bad = [r for r in res if r["p_value"] < 1e-6]
-    return {"frequency_test": {"trials": res, "rejected_at_1e-6": len(bad)}}
+    msgs = []
+    for key in ("outside_unchanged", "input_unchanged", "rows_from_window"):
+        if not obs[key]:
+            msgs.append(f"freq: {key} is false")
+    want = [kv[1] for kv in case["specified"]]
+    want.append(1 - sum(want))
+    m = case["to"] - case["from"]
+    chi = stats.chisquare(obs["counts"], [p * m for p in want])
+    if not (chi.pvalue >= 1e-6):
+        msgs.append(f"freq: class counts {obs['counts']} over {m} resampled rows do not follow the requested "
+                    f"probabilities {want} (chi-square p = {chi.pvalue:.3g})")
+    return msgs
